@@ -148,6 +148,25 @@ Proof.
     destruct (respond h2 (EvCallT vf vo [va])) eqn:R;
       [exists (Ret v)|exists (Thr v)]; exists (h2 ++ [EvCallT vf vo [va]]); intros; rewrite E1; cbn [bind]; rewrite NV;
       unfold fire; rewrite RG; cbn [bind]; rewrite E2; cbn [bind]; rewrite R; reflexivity.
+  - (* o[k] += e *)
+    destruct Hs as (Ho & Hk & He).
+    destruct (IHe1 Ho h t) as (o1 & h1 & E1).
+    destruct o1 as [vo|vo]; [|exists (Thr vo), h1; intros; rewrite E1; reflexivity].
+    destruct (IHe2 Hk h1 t) as (o2 & h2 & E2).
+    destruct o2 as [vk|vk]; [|exists (Thr vk), h2; intros; rewrite E1; cbn [bind]; rewrite E2; reflexivity].
+    destruct (fire_tenv (EvGetV vo vk) h2) as (o3 & h3 & E3).
+    destruct o3 as [v1|v1];
+      [|exists (Thr v1), h3; intros; rewrite E1; cbn [bind]; rewrite E2; cbn [bind]; rewrite E3; reflexivity].
+    destruct (IHe3 He h3 t) as (o4 & h4 & E4).
+    destruct o4 as [v2|v2];
+      [|exists (Thr v2), h4; intros; rewrite E1; cbn [bind]; rewrite E2; cbn [bind]; rewrite E3; cbn [bind]; rewrite E4; reflexivity].
+    destruct (do_add_tenv v1 v2 h4) as (o5 & h5 & E5).
+    destruct o5 as [r|r];
+      [|exists (Thr r), h5; intros; rewrite E1; cbn [bind]; rewrite E2; cbn [bind]; rewrite E3; cbn [bind]; rewrite E4; cbn [bind];
+        rewrite E5; reflexivity].
+    destruct (fire_tenv (EvSetV vo vk r) h5) as (o6 & h6 & E6).
+    destruct o6 as [w|w]; [exists (Ret r)|exists (Thr w)]; exists h6; intros; rewrite E1; cbn [bind]; rewrite E2; cbn [bind];
+      rewrite E3; cbn [bind]; rewrite E4; cbn [bind]; rewrite E5; cbn [bind]; rewrite E6; reflexivity.
 Qed.
 
 (** ** Operands that stay in place *)
@@ -303,7 +322,13 @@ Proof.
   - cbn [rw_root]. rewrite plus_true. reflexivity.
   - cbn [rw_root]. rewrite plus_true. reflexivity.
   - cbn [rw_root Sem.rw]. rewrite IHe. destruct (rw e 0) as [x' c1]. reflexivity.
+  - cbn [rw_root]. rewrite plus_true. reflexivity.
 Qed.
+
+Lemma rw_addasgc_eq o k e c :
+  rw (AddAsgC o k e) c =
+  let '(o', c1) := rw o c in let '(k', c2) := rw k c1 in let '(e', c3) := rw e c2 in rw_addasg_c o' k' e' c3.
+Proof. cbn [Sem.rw]. rewrite plus_true. reflexivity. Qed.
 
 Lemma rw_addasgv_eq x e c : rw (AddAsgV x e) c = let '(e', c1) := rw e c in rw_addasg_v x e' c1.
 Proof. cbn [Sem.rw]. rewrite plus_true. reflexivity. Qed.
@@ -444,6 +469,12 @@ Proof.
     + destruct (rw e1 (S c)) as [o' c1]. destruct (rw e2 c1) as [a' c2]. unfold rw_mcall in Hk. cbn [is_lit] in Hk.
       destruct (arg_act a'); simpl in Hk; destruct Hk as [Hk | (a & b & Hk)]; discriminate.
     + destruct (rw e1 c) as [o' c1]. destruct (rw e2 c1) as [a' c2]. simpl in Hk. destruct Hk as [Hk | (a & b & Hk)]; discriminate.
+  - (* o[k] += e : the result is an assignment or an injected sequence *)
+    rewrite rw_addasgc_eq in Hk. destruct (rw e1 c) as [o' c1]. destruct (rw e2 c1) as [k' c2]. destruct (rw e3 c2) as [e' c3].
+    unfold rw_addasg_c in Hk.
+    destruct (is_lit o' || is_triv o' && negb (negb (is_triv k'))); destruct (negb (is_triv k'));
+      destruct (rw_add _ (group_sum e') _) as [sum c6]; simpl in Hk;
+      destruct Hk as [Hk | (a & b & Hk)]; discriminate.
 Qed.
 
 (* Main statement: same outcome, same history, and only temporaries of the allocated range are touched. *)
@@ -512,6 +543,28 @@ Lemma eval_asgm o k e (s : st) :
   eval (AsgM o k e) s = bind (eval o s) (fun vo s1 => bind (eval e s1) (fun r s2 =>
                          bind (fire respond (EvSet vo k r) s2) (fun _ s3 => (Ret r, s3)))).
 Proof. reflexivity. Qed.
+
+Lemma eval_asgc o k e (s : st) :
+  eval (AsgC o k e) s = bind (eval o s) (fun vo s1 => bind (eval k s1) (fun vk s2 => bind (eval e s2) (fun r s3 =>
+                         bind (fire respond (EvSetV vo vk r) s3) (fun _ s4 => (Ret r, s4))))).
+Proof. reflexivity. Qed.
+
+Lemma eval_getc o k (s : st) :
+  eval (GetC o k) s = bind (eval o s) (fun vo s1 => bind (eval k s1) (fun vk s2 => fire respond (EvGetV vo vk) s2)).
+Proof. reflexivity. Qed.
+
+Lemma eval_addasgc o k e (s : st) :
+  eval (AddAsgC o k e) s =
+  bind (eval o s) (fun vo s1 => bind (eval k s1) (fun vk s2 => bind (fire respond (EvGetV vo vk) s2) (fun v1 s3 =>
+  bind (eval e s3) (fun v2 s4 => bind (do_add respond v1 v2 s4) (fun r s5 =>
+  bind (fire respond (EvSetV vo vk r) s5) (fun _ s6 => (Ret r, s6))))))).
+Proof. reflexivity. Qed.
+
+Lemma rw_add_le l r c : c <= snd (rw_add l r c).
+Proof.
+  unfold rw_add. destruct (left_act l r); destruct (right_act l r); cbn [fst snd app];
+    match goal with |- context [if ?b then _ else _] => destruct b end; cbn [fst snd]; lia.
+Qed.
 
 Lemma eval_var x (s : st) : eval (Var x) s = (Ret (ustore (fst s) x), s).
 Proof. reflexivity. Qed.
@@ -1152,6 +1205,159 @@ Proof.
       destruct (respond h2 (EvCallT vf vo [va])) eqn:RC;
         [rewrite (fire_ret t RC) in E; rewrite (fire_ret t2 RC) | rewrite (fire_thr t RC) in E; rewrite (fire_thr t2 RC)];
         inversion E; subst o h'; eexists; (split; [reflexivity|frame_tac]).
+  - (* o[k] += e : a computed key *)
+    destruct Hs as (Ho & Hk & He).
+    pose proof (IHe1 Ho c) as I1. pose proof (rw_inplace_src e1 c Ho) as P1.
+    rewrite rw_addasgc_eq. destruct (rw e1 c) as [o' c1] eqn:Ro. simpl in I1, P1.
+    pose proof (IHe2 Hk c1) as I2. pose proof (rw_inplace_src e2 c1 Hk) as P2.
+    destruct (rw e2 c1) as [k' c2] eqn:Rk. simpl in I2, P2.
+    pose proof (IHe3 He c2) as I3. pose proof (rw_inplace_src e3 c2 He) as P3.
+    destruct (rw e3 c2) as [e' c3] eqn:Re. simpl in I3, P3.
+    assert (Hc1 : c <= c1) by (destruct (I1 h t); auto).
+    assert (Hc2 : c1 <= c2) by (destruct (I2 h t); auto).
+    assert (Hc3 : c2 <= c3) by (destruct (I3 h t); auto).
+    (* what the source does once object and key are known *)
+    set (tail := fun (vo vk : value) (s2 : st) =>
+           bind (fire respond (EvGetV vo vk) s2) (fun v1 s3 =>
+           bind (eval e3 s3) (fun v2 s4 => bind (do_add respond v1 v2 s4) (fun r s5 =>
+           bind (fire respond (EvSetV vo vk r) s5) (fun _ s6 => (Ret r, s6)))))).
+    assert (TAIL : forall vo vk v1 v2 (hX : hist) (tA tB tC : tenv) o h' lo hi,
+               bind (do_add respond v1 v2 (hX, tA)) (fun r s4 => bind (fire respond (EvSetV vo vk r) s4) (fun _ s5 => (Ret r, s5))) = (o, (h', tA)) ->
+               frame lo hi tC tB ->
+               exists t', bind (do_add respond v1 v2 (hX, tB)) (fun r s2 => bind (fire respond (EvSetV vo vk r) s2) (fun _ s3 => (Ret r, s3))) = (o, (h', t')) /\ frame lo hi tC t').
+    { intros vo vk v1 v2 hX tA tB tC o h' lo hi E F.
+      destruct (do_add_tenv v1 v2 hX) as (o3 & h4 & E3). rewrite E3 in *.
+      destruct o3 as [r|r]; cbn [bind] in *; [|inversion E; subst; eexists; split; [reflexivity | exact F]].
+      destruct (fire_tenv (EvSetV vo vk r) h4) as (o4 & h5 & E4). rewrite E4 in *.
+      destruct o4 as [w|w]; cbn [bind] in *; inversion E; subst; eexists; (split; [reflexivity | exact F]). }
+    (* the assignment built on a target whose object and key are stable reads *)
+    assert (CORE : forall ob kb c5 sum c6 vo vk (hK : hist) (t5 : tenv) o h',
+               rw_add (GetC ob kb) (group_sum e') c5 = (sum, c6) -> c3 <= c5 ->
+               (forall t'' : tenv, (forall n, n < c5 -> t'' n = t5 n) ->
+                  eval ob (hK, t'') = (Ret vo, (hK, t'')) /\ eval kb (hK, t'') = (Ret vk, (hK, t''))) ->
+               (forall t2 : tenv, tail vo vk (hK, t2) = (o, (h', t2))) ->
+               exists t', eval (AsgC ob kb sum) (hK, t5) = (o, (h', t')) /\ frame c2 c6 t5 t').
+    { intros ob kb c5 sum c6 vo vk hK t5 o h' RA L5 ST E. unfold rw_add in RA. cbn [left_act fst snd app] in RA.
+      destruct (ST t5 ltac:(auto)) as [SO SK].
+      destruct (is_triv (group_sum e')) eqn:TR.
+      - (* ob[kb] = (t = ob[kb], hook(t + e, t, e)) *)
+        destruct (group_sum_triv _ TR) as [GS TE]. rewrite GS in *.
+        destruct (P3 (or_introl TE)) as [Q3 IP3]. inversion Q3; subst e' c3.
+        rewrite (@right_act_triv (GetC ob kb) e3 ltac:(intros; discriminate) TE) in RA.
+        cbn [app forallb is_lit andb fst snd wrap] in RA. inversion RA; subst sum c6.
+        specialize (E t5). unfold tail in E.
+        rewrite eval_asgc, SO. cbn [bind]. rewrite SK. cbn [bind].
+        rewrite eval_hoist1, eval_getc, SO. cbn [bind]. rewrite SK. cbn [bind].
+        destruct (fire_tenv (EvGetV vo vk) hK) as (og & hg & EG). rewrite EG in *.
+        destruct og as [v1|v1]; cbn [bind fst snd] in *; [|inversion E; subst o h'; eexists; split; [reflexivity|frame_tac]].
+        rewrite hook_pure by (repeat constructor; [apply pure_tmp | apply pure_inplace; exact IP3]).
+        rewrite eval_add, eval_tmp. cbn [bind fst snd]. rewrite upd_same.
+        destruct (src_tenv e3 He hg t5) as (o3 & h3 & E3). rewrite E3 in *.
+        destruct o3 as [v2|v2]; cbn [bind] in *; [|inversion E; subst o h'; eexists; split; [reflexivity|frame_tac]].
+        eapply TAIL; [exact E | frame_tac].
+      - (* ob[kb] = (t = ob[kb], t' = e', hook(t + t', t, t')) *)
+        rewrite (@right_act_grouped (GetC ob kb) e' ltac:(intros; discriminate) TR) in RA.
+        cbn [app forallb is_lit andb fst snd wrap] in RA. inversion RA; subst sum c6.
+        specialize (E t5). unfold tail in E.
+        rewrite eval_asgc, SO. cbn [bind]. rewrite SK. cbn [bind].
+        rewrite eval_hoist2, eval_getc, SO. cbn [bind]. rewrite SK. cbn [bind].
+        destruct (fire_tenv (EvGetV vo vk) hK) as (og & hg & EG). rewrite EG in *.
+        destruct og as [v1|v1]; cbn [bind fst snd] in *; [|inversion E; subst o h'; eexists; split; [reflexivity|frame_tac]].
+        destruct (src_tenv e3 He hg t5) as (o3 & h3 & E3). rewrite E3 in E.
+        destruct (I3 hg (upd t5 c5 v1)) as (_ & K3). destruct (K3 o3 h3 E3) as (t3 & Er & F3).
+        rewrite eval_group_sum, Er.
+        destruct o3 as [v2|v2]; cbn [bind fst snd] in *; [|inversion E; subst o h'; eexists; split; [reflexivity|frame_tac]].
+        rewrite hook_pure by (repeat constructor; apply pure_tmp).
+        rewrite eval_add. step_eval. rewrite upd_same.
+        assert (Hv : upd t3 (S c5) v2 c5 = v1) by (rewrite upd_other by lia; rewrite F3 by lia; apply upd_same).
+        rewrite Hv. eapply TAIL; [exact E | frame_tac]. }
+    destruct (src_tenv e1 Ho h t) as (o1 & h1 & E1).
+    unfold rw_addasg_c. cbv zeta.
+    destruct (is_triv k') eqn:TK; cbn [negb].
+    + (* the key stays: an identifier or a literal *)
+      destruct (P2 (or_introl eq_refl)) as [Q2 IP2]. inversion Q2; subst k' c2.
+      rewrite andb_true_r.
+      destruct (is_lit o' || is_triv o') eqn:TO.
+      * (* ... and so does the object: o[k] = (t = o[k], ...) *)
+        assert (TO' : is_triv o' = true) by (destruct o'; simpl in TO |- *; try discriminate; reflexivity).
+        destruct (P1 (or_introl TO')) as [Q1 IP1]. inversion Q1; subst o' c1.
+        destruct (pure_inplace IP1 (h, t)) as (vo & Evo).
+        assert (o1 = Ret vo /\ h1 = h) as [-> ->] by (pose proof (E1 t) as X; rewrite Evo in X; inversion X; auto).
+        destruct (src_tenv e2 Hk h t) as (o2 & h2 & E2).
+        destruct (pure_inplace IP2 (h, t)) as (vk & Evk).
+        assert (o2 = Ret vk /\ h2 = h) as [-> ->] by (pose proof (E2 t) as X; rewrite Evk in X; inversion X; auto).
+        cbn [app wrap].
+        pose proof (rw_add_le (GetC e1 e2) (group_sum e') c3) as LE.
+        destruct (rw_add (GetC e1 e2) (group_sum e') c3) as [sum c6] eqn:RA. cbn [fst snd] in LE |- *.
+        split; [lia|]. intros o h' E.
+        assert (SRC : forall t2 : tenv, tail vo vk (h, t2) = (o, (h', t2))).
+        { intros t2. specialize (E t2). rewrite eval_addasgc, E1 in E. cbn [bind] in E. rewrite E2 in E. exact E. }
+        destruct (CORE e1 e2 c3 sum c6 vo vk h t o h' RA ltac:(lia) (fun t'' _ => conj (E1 t'') (E2 t'')) SRC) as (t' & Ev & F).
+        exists t'. split; [exact Ev | frame_tac].
+      * (* the object is captured: (t0 = o', t0[k] = ...) *)
+        cbn [app wrap].
+        pose proof (rw_add_le (GetC (Tmp c3) e2) (group_sum e') (S c3)) as LE.
+        destruct (rw_add (GetC (Tmp c3) e2) (group_sum e') (S c3)) as [sum c6] eqn:RA. cbn [fst snd] in LE |- *.
+        split; [lia|]. intros o h' E.
+        destruct (I1 h t) as (_ & K1). destruct (K1 o1 h1 E1) as (t1 & El & F1).
+        rewrite eval_hoist1, El.
+        destruct o1 as [vo|vo]; cbn [bind fst snd].
+        2:{ specialize (E t). rewrite eval_addasgc, E1 in E. cbn [bind] in E. inversion E; subst o h'.
+            eexists; split; [reflexivity|frame_tac]. }
+        destruct (src_tenv e2 Hk h1 t) as (o2 & h2 & E2).
+        destruct (pure_inplace IP2 (h1, t)) as (vk & Evk).
+        assert (o2 = Ret vk /\ h2 = h1) as [-> ->] by (pose proof (E2 t) as X; rewrite Evk in X; inversion X; auto).
+        assert (SRC : forall t2 : tenv, tail vo vk (h1, t2) = (o, (h', t2))).
+        { intros t2. specialize (E t2). rewrite eval_addasgc, E1 in E. cbn [bind] in E. rewrite E2 in E. exact E. }
+        destruct (CORE (Tmp c3) e2 (S c3) sum c6 vo vk h1 (upd t1 c3 vo) o h' RA ltac:(lia)) as (t' & Ev & F); [|exact SRC|].
+        { intros t'' AG. split; [|apply E2]. rewrite eval_tmp. cbn [snd]. rewrite AG by lia. rewrite upd_same. reflexivity. }
+        exists t'. split; [exact Ev | frame_tac].
+    + (* the key is captured, and the object before it (a literal stays) *)
+      rewrite andb_false_r, orb_false_r.
+      destruct (is_lit o') eqn:LO.
+      * (* 'lit'[k] += e: (t0 = k', 'lit'[t0] = ...) *)
+        destruct (is_lit_inv _ LO) as (vo & ->).
+        destruct (P1 (or_introl eq_refl)) as [Q1 _].
+        assert (e1 = Lit vo /\ c1 = c) as [-> ->] by (inversion Q1; auto).
+        assert (o1 = Ret vo /\ h1 = h) as [-> ->] by (pose proof (E1 t) as X; cbn in X; inversion X; auto).
+        cbn [app wrap].
+        pose proof (rw_add_le (GetC (Lit vo) (Tmp c3)) (group_sum e') (S c3)) as LE.
+        destruct (rw_add (GetC (Lit vo) (Tmp c3)) (group_sum e') (S c3)) as [sum c6] eqn:RA. cbn [fst snd] in LE |- *.
+        split; [lia|]. intros o h' E.
+        destruct (src_tenv e2 Hk h t) as (o2 & h2 & E2).
+        destruct (I2 h t) as (_ & K2). destruct (K2 o2 h2 E2) as (t2 & Ek & F2).
+        rewrite eval_hoist1, Ek.
+        destruct o2 as [vk|vk]; cbn [bind fst snd].
+        2:{ specialize (E t). rewrite eval_addasgc, E1 in E. cbn [bind] in E. rewrite E2 in E. cbn [bind] in E. inversion E; subst o h'.
+            eexists; split; [reflexivity|frame_tac]. }
+        assert (SRC : forall t3 : tenv, tail vo vk (h2, t3) = (o, (h', t3))).
+        { intros t3. specialize (E t3). rewrite eval_addasgc, E1 in E. cbn [bind] in E. rewrite E2 in E. exact E. }
+        destruct (CORE (Lit vo) (Tmp c3) (S c3) sum c6 vo vk h2 (upd t2 c3 vk) o h' RA ltac:(lia)) as (t' & Ev & F); [|exact SRC|].
+        { intros t'' AG. split; [reflexivity|]. rewrite eval_tmp. cbn [snd]. rewrite AG by lia. rewrite upd_same. reflexivity. }
+        exists t'. split; [exact Ev | frame_tac].
+      * (* (t0 = o', t1 = k', t0[t1] = ...) *)
+        cbn [app wrap].
+        pose proof (rw_add_le (GetC (Tmp c3) (Tmp (S c3))) (group_sum e') (S (S c3))) as LE.
+        destruct (rw_add (GetC (Tmp c3) (Tmp (S c3))) (group_sum e') (S (S c3))) as [sum c6] eqn:RA. cbn [fst snd] in LE |- *.
+        split; [lia|]. intros o h' E.
+        destruct (I1 h t) as (_ & K1). destruct (K1 o1 h1 E1) as (t1 & El & F1).
+        rewrite eval_hoist2, El.
+        destruct o1 as [vo|vo]; cbn [bind fst snd].
+        2:{ specialize (E t). rewrite eval_addasgc, E1 in E. cbn [bind] in E. inversion E; subst o h'.
+            eexists; split; [reflexivity|frame_tac]. }
+        destruct (src_tenv e2 Hk h1 t) as (o2 & h2 & E2).
+        destruct (I2 h1 (upd t1 c3 vo)) as (_ & K2). destruct (K2 o2 h2 E2) as (t2 & Ek & F2).
+        rewrite Ek.
+        destruct o2 as [vk|vk]; cbn [bind fst snd].
+        2:{ specialize (E t). rewrite eval_addasgc, E1 in E. cbn [bind] in E. rewrite E2 in E. cbn [bind] in E. inversion E; subst o h'.
+            eexists; split; [reflexivity|frame_tac]. }
+        assert (SRC : forall t3 : tenv, tail vo vk (h2, t3) = (o, (h', t3))).
+        { intros t3. specialize (E t3). rewrite eval_addasgc, E1 in E. cbn [bind] in E. rewrite E2 in E. exact E. }
+        destruct (CORE (Tmp c3) (Tmp (S c3)) (S (S c3)) sum c6 vo vk h2 (upd t2 (S c3) vk) o h' RA ltac:(lia)) as (t' & Ev & F); [|exact SRC|].
+        { intros t'' AG. split; rewrite eval_tmp; cbn [snd]; rewrite AG by lia.
+          - rewrite upd_other by lia. rewrite F2 by lia. rewrite upd_same. reflexivity.
+          - rewrite upd_same. reflexivity. }
+        exists t'. split; [exact Ev | frame_tac].
 Qed.
 
 End Proofs.
